@@ -2,6 +2,7 @@ import LibInj.Xss.IsXSS
 import LibInj.Proofs.XssLift
 import LibInj.Proofs.XssShift
 import LibInj.Proofs.SchemeEnc
+import LibInj.Proofs.XssMarkup
 set_option linter.unusedSimpArgs false
 /-! # C04 — canonical XSS vectors are detected in every HTML injection context
 
@@ -26,8 +27,14 @@ these theorems without any test input having to hit it.
 * `script_url_detected_*` — a URL-bearing attribute with a quoted value that, after leading control
   bytes, spells a script-capable scheme through any mix of encodings (C19's `Enc`) is reported.
 
-Not theorems: NUL bytes inside names at tokenizer level (classifier level: C11), `/` as attribute
-separator, unquoted URL values, the markup forms for arbitrary content — enumerated by the oracle. -/
+* `doctype_detected`, `pi_detected`, `decl_detected`, `comment_detected`, `percent_detected` — **the markup
+  forms for arbitrary content**: after any `<`-free text, `<!doctype` in any letter case followed by anything;
+  and a `<? … >`, `<! … >`, `<!-- … -->`, `<% … %>` construct (closed, or running to the end of input) whose
+  text carries one of the markers the classifier looks for — a back-tick anywhere, or `[if`, `xml`, `import`,
+  `entity` (any case, NULs tolerated in the last two) at its start — whatever follows the construct.
+
+NUL bytes inside names: C11's `nul_in_name` (every name token, every context). Not theorems: comment bodies
+that contain dashes before their terminator, `--!>` as terminator — enumerated by the oracle. -/
 namespace LibInj.Properties.C04
 open LibInj LibInj.Xss LibInj.H5
 
@@ -73,6 +80,34 @@ def markupForms : List Bytes :=
    [60,63,120,109,108,32,120,62], [60,33,45,45,91,105,102,32,120,93,62], [60,33,45,45,96,45,45,62], [60,37,96,37,62]]
 
 theorem markup_forms_detected : markupForms.all (fun s => isOkTrue (isXSS s)) = true := by decide +kernel
+
+/-- **DOCTYPE** in any letter case, after any `<`-free text, followed by anything -/
+theorem doctype_detected (p w rest : Bytes) (hp : (60 : UInt8) ∉ p) (hw : w.length = 7) (hlow : goLowerAscii w = doctypeLower) :
+    isXSSCtx (p ++ 60 :: 33 :: (w ++ rest)) 0 = .ok true := Xss.doctype_detected p w rest hp hw hlow
+
+/-- **processing instruction** `<? T >` / `<? T` to the end of input, `T` free of `>` and carrying a marker -/
+theorem pi_detected (p T tail : Bytes) (hp : (60 : UInt8) ∉ p) (hT : (62 : UInt8) ∉ T) (htail : tail = [] ∨ ∃ r, tail = 62 :: r)
+    (hm : Marker T) : isXSSCtx (p ++ 60 :: 63 :: (T ++ tail)) 0 = .ok true := Xss.pi_detected p T tail hp hT htail hm
+
+/-- **declaration** `<! T >` that is not a doctype, CDATA section or comment (`<!ENTITY …`) -/
+theorem decl_detected (p T' tail : Bytes) (c : UInt8) (hp : (60 : UInt8) ∉ p) (hT : (62 : UInt8) ∉ (c :: T'))
+    (htail : tail = [] ∨ ∃ r, tail = 62 :: r) (h1 : lowerAscii c ≠ 100) (h2 : c ≠ 91) (h3 : c ≠ 45)
+    (hm : Marker (c :: T')) : isXSSCtx (p ++ 60 :: 33 :: ((c :: T') ++ tail)) 0 = .ok true :=
+  Xss.decl_detected p T' tail c hp hT htail h1 h2 h3 hm
+
+/-- **comment** `<!-- T -->` (IE conditional comment, back-tick), `T` free of dashes -/
+theorem comment_detected (p T tail : Bytes) (hp : (60 : UInt8) ∉ p) (hT : (45 : UInt8) ∉ T)
+    (htail : tail = [] ∨ ∃ r, tail = 45 :: 45 :: 62 :: r) (hm : Marker T) :
+    isXSSCtx (p ++ 60 :: 33 :: 45 :: 45 :: (T ++ tail)) 0 = .ok true := Xss.comment_detected p T tail hp hT htail hm
+
+/-- **`<% T %>`**, `T` free of `%` -/
+theorem percent_detected (p T tail : Bytes) (hp : (60 : UInt8) ∉ p) (hT : (37 : UInt8) ∉ T)
+    (htail : tail = [] ∨ ∃ r, tail = 37 :: 62 :: r) (hm : Marker T) :
+    isXSSCtx (p ++ 60 :: 37 :: (T ++ tail)) 0 = .ok true := Xss.percent_detected p T tail hp hT htail hm
+
+/-- non-vacuity: `[if IE]>` carries the IE-conditional marker, `EnTiTy x` the entity marker -/
+example : Marker [91, 105, 102, 32, 73, 69, 93, 62] ∧ Marker [69, 110, 84, 105, 84, 121, 32, 120] := by
+  refine ⟨Or.inr (Or.inl ⟨105, 102, 32, _, rfl, by decide⟩), Or.inr (Or.inr (Or.inr ⟨69, 110, 84, 105, 84, 121, _, rfl, Or.inr (by decide)⟩))⟩
 
 theorem isBlackTag_caseEq (s s' : Bytes) (h : CaseEq s s') : isBlackTag s = isBlackTag s' := by
   unfold isBlackTag
